@@ -121,7 +121,7 @@ def run(tier, seed, mutant=None, only_validate=False):
                         r, rec = amod.mc(res, work, "AsyncBuffer", "n%d_sync%d_out%d" % (n, sync, maxout),
                                          dict(NE=ne, N=n, SyncCons=sync, Interval=0, MaxOut=maxout, MaxTime=0, Faults=not sync),
                                          INVS, ["NoResurrection", "EmitsComplete", "AllDelivered"], spec="FairSpec")
-                        if not r.ok:
+                        if not r.ok and not amod.incomplete(r, rec):
                             res.violations.append(dict(property=INV_PROP.get(r.violated or "", "C02"), engine="abuffer",
                                                        clause=r.violated or "tlc-error",
                                                        what="AsyncBuffer.tla violates %s for %s" % (r.violated, rec["constants"]),
